@@ -32,6 +32,8 @@ CONSTANTS
   LongBound,    \* 0, or: one chain of the plain name carrier is followed up to LongBound redirects (redirect limit)
   HistBound,    \* number of EARLIER fetches of the same process (0 = every fetch in a fresh process); a case is then a
                 \* history of HistBound + 1 fetches, each with its own configuration (allow-list)
+  SameSchemes, SameUsers, SamePorts,   \* redirect targets that KEEP the host of the redirecting hop and change only
+                \* scheme / userinfo / port (the path always changes); an empty set switches them off
   PoolClasses,  \* {} = every address class, else the classes the resolver answers / literals are drawn from
   Emit
 
@@ -106,8 +108,12 @@ AllowList(f) ==
 SchemeOK(s) == s \in {"http", "https", "HTTP"}       \* url.Parse lower-cases the scheme
 Cred == {"user", "userpass"}                          \* "empty" is the spelling http://@host/ : no credentials, but pdfcpu refuses it too
 BadCombo(s, u) == ~SchemeOK(s) \/ u # "none"
-U(s, u, f, a) == [scheme |-> s, user |-> u, form |-> f, addr |-> a,
-                  host |-> IF f = "lit" THEN (IF IsV4(a) THEN Dotted(a) ELSE <<>>) ELSE Name[f]]
+\* port: "" (the scheme's default) or "8080"; rel: "abs" = a URL of the environment's choosing, "same" = the
+\* redirecting hop's own host again
+U5(s, u, f, a, p, r) == [scheme |-> s, user |-> u, form |-> f, addr |-> a, port |-> p, rel |-> r,
+                         host |-> IF f = "lit" THEN (IF IsV4(a) THEN Dotted(a) ELSE <<>>) ELSE Name[f]]
+U(s, u, f, a) == U5(s, u, f, a, "", "abs")
+SameTargets(h) == { U5(t[1], t[2], h.form, h.addr, t[3], "same") : t \in SameSchemes \X SameUsers \X SamePorts }
 \* the plain combination (http, no userinfo) gets every host; every other combination - refused or not - a small host
 \* alphabet, because the host is looked at independently of scheme and userinfo
 Plain(s, u) == s = "http" /\ u = "none"
@@ -141,7 +147,7 @@ Permit(k, h, al) ==
 Attempts(k, h) == IF k \in Rev THEN h.answers ELSE <<h.answers[1]>>
 
 Hop(u) == [scheme |-> u.scheme, user |-> u.user, form |-> u.form, addr |-> u.addr, host |-> u.host,
-           answers |-> <<>>, conn |-> <<>>, st |-> "new"]
+           port |-> u.port, rel |-> u.rel, answers |-> <<>>, conn |-> <<>>, st |-> "new"]
 \* n = request number of this hop (1 = the URL of the document / certificate)
 Enter(k, u, n) ==
   LET h == Hop(u) IN
@@ -172,6 +178,7 @@ PickAllow == /\ phase \in {"resolve", "check"} /\ allow = "unset" /\ NeedsAllow
 AnswersFor(h, n) ==
   IF h.form \in Unresolvable THEN {<<>>}
   ELSE IF n > ChainBound + 1 THEN { <<A("pub4")>> }           \* the long chain
+  ELSE IF h.rel = "same" THEN { done[Len(done)].answers, <<A("p10")>> }   \* the same answer again, or the name has been re-pointed
   ELSE IF n = 1 /\ h.scheme = "http" /\ h.form \in RichNames /\ kind \in FullKinds /\ allow \in RichAllows \cup {"unset"}
        THEN Seqs(Pool, MaxAns)
   ELSE Seqs(Pool, 1)
@@ -191,13 +198,13 @@ Body == phase = "respond" /\ phase' = "done" /\ UNCHANGED <<kind, allow, cur, do
 
 \* only a few permitted hops answer with a redirect (the carriers); every permitted hop may answer with a body
 IsCarrier(h) ==
-  /\ h.scheme = "http"
+  /\ h.scheme = "http" /\ h.rel = "abs"
   /\ \/ "name"  \in CarrierKinds /\ h.form = "other" /\ h.answers = <<A("pub4")>>
      \/ "allow" \in CarrierKinds /\ h.form = "pki"   /\ h.answers = <<A("p10")>>     \* only reachable when allow-listed
      \/ "lit"   \in CarrierKinds /\ h.form = "lit"   /\ h.addr = A("pub6")
 Redirect == /\ phase = "respond" /\ IsCarrier(cur)
             /\ Len(done) < (IF kind \in FullKinds THEN ChainBound ELSE LiteChain)
-            /\ \E u \in URLsR :
+            /\ \E u \in URLsR \cup SameTargets(cur) :
                  LET e == Enter(kind, u, Len(done) + 2) IN cur' = e.h /\ phase' = e.p
             /\ done' = Append(done, cur)
             /\ UNCHANGED <<kind, allow, hist>>
@@ -235,7 +242,8 @@ May(n, h) ==   \* addresses the PROPERTY permits a connect to at request n
   THEN { h.answers[i] : i \in { j \in 1..Len(h.answers) : Public(h.answers[j]) \/ PropAllowed(h) } }
   ELSE {}
 CaseHop(n) == LET h == AllHops[n] IN
-  [scheme |-> h.scheme, user |-> h.user, form |-> h.form, addr |-> h.addr, host |-> h.host, answers |-> h.answers,
+  [scheme |-> h.scheme, user |-> h.user, form |-> h.form, addr |-> h.addr, host |-> h.host, port |-> h.port, rel |-> h.rel,
+   answers |-> h.answers,
    st |-> h.st, pred |-> h.conn, may |-> May(n, h),
    classes |-> [i \in 1..Len(h.answers) |-> ClassOf(h.answers[i])]]
 Fetch == [kind |-> kind, allowform |-> allow, allow |-> AllowList(allow), variant |-> Variant,
